@@ -87,6 +87,21 @@ Definition partition_entries (l : list (bool * rx)) : list rx * list rx :=
 Definition match_entries (sh : shape) (l : list (bool * rx)) (inv : nat) (s : str) : outcome :=
   let (inc, exc) := partition_entries l in match_list sh inc exc inv s.
 
+(* ------------------------------------------------------------------ the sites that use a list (http_proxy.go) *)
+(* strings.TrimSuffix(host, ".") *)
+Definition trim_dot (h : str) : str :=
+  match rev h with
+  | c :: r => if c =? 46 then rev r else h
+  | [] => h
+  end.
+Inductive site := SiteDeny | SiteDirect | SiteMitm.
+(* the forms of the (ASCII) target host name a site gives to Match; the site answers yes when one of them matches *)
+Definition site_forms (st : site) (h : str) : list str :=
+  match st with
+  | SiteDeny => if deny_also_without_trailing_dot then [h; trim_dot h] else [h]
+  | _ => [h]
+  end.
+
 (* ------------------------------------------------------------------ the reference *)
 (* a rule taken on its own as a regular expression, from the default flags *)
 Definition alone (r : rx) (s : str) : bool :=
